@@ -1,70 +1,631 @@
+// C20 — contract execution is metered, atomic and crash-free for arbitrary programs.
+//
+// Bounded exhaustive enumeration of EVM programs x entry configurations on the REAL interpreter
+// (vm/evm over a real state.StateDB), every case executed twice from equal pre-states (once observed through
+// a probing StateDB + tracer, once on the plain production path) and judged by the oracles in exec.go.
+//
+// Process structure: the check binary is a supervisor that re-executes itself as W single-threaded worker
+// processes (address-space limited), because the property includes "does not crash the node": a Go fatal error
+// (out of memory, stack exhaustion) cannot be recovered in-process. A worker publishes the case it is about to
+// run in a shared-memory slot; if it dies, the supervisor reports that case as a violation and restarts the
+// worker behind it.
 package main
 
 import (
+	"bufio"
+	"encoding/binary"
+	"encoding/hex"
+	"encoding/json"
 	"fmt"
+	"io"
 	"os"
-	"runtime/pprof"
+	"os/exec"
+	"path/filepath"
+	"runtime"
+	"runtime/debug"
+	"sort"
+	"strconv"
+	"strings"
+	"sync"
+	"syscall"
 	"time"
 
+	"verif/vk"
+
+	"github.com/lianxiangcloud/linkchain/libs/common"
 	"github.com/lianxiangcloud/linkchain/libs/log"
-	"github.com/lianxiangcloud/linkchain/vm/evm"
+	"github.com/lianxiangcloud/linkchain/state"
 )
+
+// ---- the layers of a tier ----
+
+func buildLayers(w *world, thorough bool) []layer {
+	var ls []layer
+	// D: deep recursion
+	dp := depthPrograms()
+	dm := depthMatrix()
+	ls = append(ls, layer{name: "D", what: fmt.Sprintf("%d self-recursive programs (CALL/CALLCODE/DELEGATECALL/STATICCALL to self with all gas, CREATE/CREATE2 of own code, stack-limit loop; 4 tails) x %d configurations with gas up to 2^64-1: the 1024 call-depth limit is reached", len(dp), len(dm)),
+		n: len(dp), gen: func(i int) (string, []byte) { return dp[i].name, dp[i].code }, configs: func(int) []config { return dm }})
+	// C: call structures
+	cp := callPrograms()
+	cm := callMatrix()
+	cmSmall := smallGasOnly(cm)
+	ls = append(ls, layer{name: "C", what: fmt.Sprintf("%d call-structure programs: [pre] CALLKIND(target,value,gas) [post] over 4 call kinds x 18 targets x 3 values x 3 gas operands x 4 pre x 7 post, and all pairs of all-gas calls x 2 post; x %d configurations (programs that reach the spinner fixture only at gas <= 50000)", len(cp), len(cm)),
+		n: len(cp), gen: func(i int) (string, []byte) { return cp[i].name, cp[i].code },
+		configs: func(i int) []config {
+			if cp[i].spinner {
+				return cmSmall
+			}
+			return cm
+		}})
+	// V: operand sweep; the arity of every opcode is measured on the real interpreter
+	ar := measureArity(w)
+	sp := sweepPrograms(ar, thorough)
+	sm := sweepMatrix()
+	ls = append(ls, layer{name: "V", what: fmt.Sprintf("%d operand-sweep programs: every opcode byte 0x00..0xff x every operand vector over boundary values (10 values for <=3 operands, 6 for 4, 4-5 for 6-7), with and without a warm-up call; x %d configurations", len(sp), len(sm)),
+		n: len(sp), gen: func(i int) (string, []byte) { return sp[i].name, sp[i].code }, configs: func(int) []config { return sm }})
+	// B: raw byte strings
+	bm := []config{{entCall, 10000000, 1, nil}, {entCreate, 10000000, 0, nil}}
+	ls = append(ls, byteLayer(1, fullMatrix()), byteLayer(2, bm))
+	// S: instruction sequences
+	full := fullMatrix()
+	red := reducedMatrix()
+	deep := 4
+	if thorough {
+		deep = 5
+	}
+	for l := 0; l < deep; l++ {
+		ls = append(ls, seqLayer(l, full, "full matrix"))
+	}
+	ls = append(ls, seqLayer(deep, red, "reduced matrix"))
+	if thorough {
+		ls = append(ls, byteLayer(3, []config{{entCall, 1000000, 1, nil}}))
+	}
+	return ls
+}
+
+// measureArity determines, on the real interpreter, how many stack items each opcode byte needs: the smallest
+// k such that PUSH1 0 (x k); OP does not fail with a stack underflow.
+func measureArity(w *world) [256]int {
+	var ar [256]int
+	for b := 0; b < 256; b++ {
+		for k := 0; k <= 17; k++ {
+			var code []byte
+			for i := 0; i < k; i++ {
+				code = append(code, push1(0)...)
+			}
+			code = append(code, byte(b))
+			r := run(w, w.open(code), code, config{entCall, 100000, 0, nil}, false)
+			if r.panicked || !strings.HasPrefix(r.err, "stack underflow") {
+				ar[b] = k
+				break
+			}
+		}
+	}
+	return ar
+}
+
+// ---- worker ----
+
+type layerStats struct {
+	Name     string         `json:"layer"`
+	What     string         `json:"bound"`
+	Programs int            `json:"programs"`
+	Cases    int            `json:"cases"`
+	Runs     int            `json:"runs_on_real_code"`
+	Steps    uint64         `json:"interpreter_steps_observed"`
+	Frames   int            `json:"call_frames_observed"`
+	Reverts  int            `json:"frame_reverts_observed"`
+	MaxDepth int            `json:"max_call_depth"`
+	Outcomes map[string]int `json:"outcomes"`
+	Sigs     map[string]int `json:"-"`
+	Complete bool           `json:"complete"`
+	Total    int            `json:"programs_in_layer"`
+}
+
+type wmsg struct {
+	T      string                 `json:"t"`
+	Key    string                 `json:"key,omitempty"`
+	What   string                 `json:"what,omitempty"`
+	Prog   int                    `json:"prog,omitempty"`
+	Cfg    int                    `json:"cfg,omitempty"`
+	Replay map[string]interface{} `json:"replay,omitempty"`
+	Stats  []*layerStats          `json:"stats,omitempty"`
+	Sigs   []string               `json:"sigs,omitempty"`
+	Counts map[string]int         `json:"counts,omitempty"`
+	Capped string                 `json:"capped,omitempty"`
+}
+
+func replayOf(l *layer, name string, code []byte, c config) map[string]interface{} {
+	return map[string]interface{}{"layer": l.name, "program": name, "code": hx(code), "entry": entryName[c.entry], "gas": c.gas, "value": c.value, "input": hx(c.input)}
+}
+
+func workerMain(spec string) {
+	parts := strings.Split(spec, "/")
+	shard, _ := strconv.Atoi(parts[0])
+	nw, _ := strconv.Atoi(parts[1])
+	start, _ := strconv.Atoi(os.Getenv("C20_START"))
+	deadlineNs, _ := strconv.ParseInt(os.Getenv("C20_DEADLINE"), 10, 64)
+	deadline := time.Unix(0, deadlineNs)
+	thorough := os.Getenv("C20_TIER") == "thorough"
+	// address-space limit: a runaway allocation must kill this worker, not the machine
+	lim := uint64(6 << 30)
+	syscall.Setrlimit(syscall.RLIMIT_AS, &syscall.Rlimit{Cur: lim, Max: lim})
+	debug.SetGCPercent(400)
+	var slot []byte
+	if p := os.Getenv("C20_SLOTS"); p != "" {
+		f, err := os.OpenFile(p, os.O_RDWR, 0644)
+		if err == nil {
+			m, err := syscall.Mmap(int(f.Fd()), 0, 16*nw, syscall.PROT_READ|syscall.PROT_WRITE, syscall.MAP_SHARED)
+			if err == nil {
+				slot = m[16*shard : 16*shard+16]
+			}
+			f.Close()
+		}
+	}
+	out := bufio.NewWriterSize(os.Stdout, 1<<16)
+	enc := json.NewEncoder(out)
+	startWatchdog()
+	w := buildWorld()
+	layers := buildLayers(w, thorough)
+	var stats []*layerStats
+	counts := map[string]int{}
+	sigs := map[string]bool{}
+	capped := ""
+	base := 0
+outer:
+	for li := range layers {
+		l := &layers[li]
+		ls := &layerStats{Name: l.name, What: l.what, Outcomes: map[string]int{}, Total: l.n, Complete: true}
+		stats = append(stats, ls)
+		first := (shard - base%nw + nw) % nw // first i with (base+i)%nw == shard
+		for i := first; i < l.n; i += nw {
+			gi := base + i
+			if gi < start {
+				continue
+			}
+			if time.Now().After(deadline) {
+				capped = fmt.Sprintf("deadline in layer %s at program %d of %d", l.name, i, l.n)
+				ls.Complete = false
+				for _, l2 := range layers[li+1:] {
+					stats = append(stats, &layerStats{Name: l2.name, What: l2.what, Outcomes: map[string]int{}, Total: l2.n})
+				}
+				break outer
+			}
+			name, code := l.gen(i)
+			ls.Programs++
+			var refSelf *state.StateDB
+			var rootSelf common.Hash
+			for ci, c := range l.configs(i) {
+				if slot != nil {
+					binary.LittleEndian.PutUint64(slot[0:], uint64(gi)+1)
+					binary.LittleEndian.PutUint64(slot[8:], uint64(ci))
+				}
+				ref, preRoot := w.pristine, w.root
+				if c.entry != entCreate {
+					if refSelf == nil {
+						refSelf = w.open(code)
+						rootSelf = w.open(code).IntermediateRoot(false)
+					}
+					ref, preRoot = refSelf, rootSelf
+				}
+				fs, cls, a, nruns := evaluate(w, ref, preRoot, code, c)
+				ls.Cases++
+				ls.Runs += nruns
+				ls.Steps += a.steps
+				ls.Frames += a.frames
+				ls.Reverts += a.reverts
+				if a.maxDepth > ls.MaxDepth {
+					ls.MaxDepth = a.maxDepth
+				}
+				ls.Outcomes[cls]++
+				sigs[signature(cls, a)] = true
+				for _, f := range fs {
+					counts[f.key]++
+					if counts[f.key] <= 2 {
+						enc.Encode(wmsg{T: "viol", Key: f.key, What: f.what, Prog: gi, Cfg: ci, Replay: replayOf(l, name, code, c)})
+						out.Flush()
+					}
+				}
+			}
+		}
+		base += l.n
+	}
+	if slot != nil {
+		binary.LittleEndian.PutUint64(slot[0:], 0)
+	}
+	var sl []string
+	for s := range sigs {
+		sl = append(sl, s)
+	}
+	sort.Strings(sl)
+	enc.Encode(wmsg{T: "done", Stats: stats, Sigs: sl, Counts: counts, Capped: capped})
+	out.Flush()
+}
+
+// signature: a coarse behaviour class of a case, for the non-vacuity statistics.
+func signature(cls string, a *result) string {
+	d := "-"
+	if a.post != nil {
+		d = strings.Join(a.post.classes(), "+")
+	}
+	fr := a.frames
+	if fr > 3 {
+		fr = 3
+	}
+	rl := len(a.ret)
+	if rl > 1 {
+		rl = 2
+	}
+	return fmt.Sprintf("%s|%s|frames%d|ret%d|rev%v|otx%v", cls, d, fr, rl, a.reverts > 0, a.otxs != "")
+}
+
+// ---- supervisor ----
+
+type workerState struct {
+	shard   int
+	start   int
+	crashes int
+	done    *wmsg
+	viols   []wmsg
+}
+
+func crashClass(stderrTail string, ws syscall.WaitStatus) string {
+	s := stderrTail
+	switch {
+	case strings.Contains(s, "out of memory") || strings.Contains(s, "cannot allocate memory"):
+		return "out-of-memory"
+	case strings.Contains(s, "stack overflow") || strings.Contains(s, "goroutine stack exceeds"):
+		return "stack-overflow"
+	case strings.Contains(s, "concurrent map"):
+		return "concurrent-map-access"
+	case strings.Contains(s, "SIGSEGV") || strings.Contains(s, "segmentation"):
+		return "segfault"
+	case strings.Contains(s, "all goroutines are asleep"):
+		return "deadlock"
+	case strings.Contains(s, "HARNESS-ERROR"):
+		return "harness-error"
+	}
+	if ws.Signaled() {
+		return "signal-" + ws.Signal().String()
+	}
+	return "exit-" + strconv.Itoa(ws.ExitStatus())
+}
+
+type tailBuf struct {
+	mu  sync.Mutex
+	buf []byte
+}
+
+func (t *tailBuf) Write(p []byte) (int, error) {
+	t.mu.Lock()
+	defer t.mu.Unlock()
+	t.buf = append(t.buf, p...)
+	if len(t.buf) > 1<<16 {
+		t.buf = t.buf[len(t.buf)-1<<15:]
+	}
+	return len(p), nil
+}
+
+func (t *tailBuf) String() string {
+	t.mu.Lock()
+	defer t.mu.Unlock()
+	// the head of a Go fatal error is what classifies it
+	s := string(t.buf)
+	if i := strings.Index(s, "fatal error"); i >= 0 {
+		s = s[i:]
+	} else if i := strings.Index(s, "panic:"); i >= 0 {
+		s = s[i:]
+	}
+	if len(s) > 600 {
+		s = s[:600]
+	}
+	return s
+}
 
 func main() {
 	log.Root().SetHandler(log.DiscardHandler())
+	if spec := os.Getenv("C20_WORKER"); spec != "" {
+		workerMain(spec)
+		return
+	}
+	r := vk.Start("C20", "model_checking")
+	if r.ReplayPath != "" {
+		replayMain(r)
+		return
+	}
+	nw := runtime.NumCPU()
+	if w, err := strconv.Atoi(os.Getenv("VERIF_WORKERS")); err == nil && w > 0 {
+		nw = w
+	}
+	self, err := os.Executable()
+	if err != nil {
+		vk.Fatalf("os.Executable: %v", err)
+	}
+	scratch := fmt.Sprintf("/dev/shm/C20-%d", os.Getpid())
+	if err := os.MkdirAll(scratch, 0755); err != nil {
+		scratch = fmt.Sprintf("/tmp/C20-%d", os.Getpid())
+		os.MkdirAll(scratch, 0755)
+	}
+	defer os.RemoveAll(scratch)
+	slots := filepath.Join(scratch, "slots")
+	if err := os.WriteFile(slots, make([]byte, 16*nw), 0644); err != nil {
+		vk.Fatalf("slots: %v", err)
+	}
+	margin := 20 * time.Second
+	if !r.Quick() {
+		margin = 60 * time.Second
+	}
+	deadline := time.Now().Add(r.Remaining() - margin)
+
+	// the layers, for decoding crash slots and for totals (the supervisor runs no case itself, except the arity probe)
+	w := buildWorld()
+	layers := buildLayers(w, !r.Quick())
+	locate := func(gi int) (*layer, int) {
+		for li := range layers {
+			if gi < layers[li].n {
+				return &layers[li], gi
+			}
+			gi -= layers[li].n
+		}
+		return nil, 0
+	}
+
+	states := make([]*workerState, nw)
+	var mu sync.Mutex
+	type crash struct {
+		key, what string
+		prog, cfg int
+		replay    map[string]interface{}
+	}
+	var crashes []crash
+	gaveUp := false
+	var wg sync.WaitGroup
+	for s := 0; s < nw; s++ {
+		states[s] = &workerState{shard: s}
+		wg.Add(1)
+		go func(ws *workerState) {
+			defer wg.Done()
+			for {
+				cmd := exec.Command(self)
+				cmd.Env = append(os.Environ(), fmt.Sprintf("C20_WORKER=%d/%d", ws.shard, nw), fmt.Sprintf("C20_START=%d", ws.start),
+					fmt.Sprintf("C20_DEADLINE=%d", deadline.UnixNano()), "C20_TIER="+r.Tier, "C20_SLOTS="+slots, "GOMAXPROCS=2")
+				stdout, _ := cmd.StdoutPipe()
+				tail := &tailBuf{}
+				cmd.Stderr = tail
+				if err := cmd.Start(); err != nil {
+					vk.Fatalf("start worker: %v", err)
+				}
+				rd := bufio.NewReaderSize(stdout, 1<<20)
+				for {
+					line, err := rd.ReadBytes('\n')
+					if len(line) > 0 {
+						var m wmsg
+						if json.Unmarshal(line, &m) == nil {
+							mu.Lock()
+							switch m.T {
+							case "viol":
+								ws.viols = append(ws.viols, m)
+							case "done":
+								mm := m
+								ws.done = &mm
+							}
+							mu.Unlock()
+						}
+					}
+					if err != nil {
+						if err != io.EOF {
+							break
+						}
+						break
+					}
+				}
+				werr := cmd.Wait()
+				if werr == nil && ws.done != nil {
+					return
+				}
+				// the worker died: which case was it running?
+				data, _ := os.ReadFile(slots)
+				gi1 := binary.LittleEndian.Uint64(data[16*ws.shard:])
+				ci := int(binary.LittleEndian.Uint64(data[16*ws.shard+8:]))
+				var wstat syscall.WaitStatus
+				if ee, ok := werr.(*exec.ExitError); ok {
+					wstat, _ = ee.Sys().(syscall.WaitStatus)
+				}
+				cls := crashClass(tail.String(), wstat)
+				if gi1 == 0 || cls == "harness-error" {
+					vk.Fatalf("worker %d died outside a case (%s): %s", ws.shard, cls, tail.String())
+				}
+				gi := int(gi1 - 1)
+				l, i := locate(gi)
+				name, code := l.gen(i)
+				cfgs := l.configs(i)
+				c := cfgs[ci%len(cfgs)]
+				mu.Lock()
+				crashes = append(crashes, crash{"process-crash:" + cls + ":" + opClass(code),
+					fmt.Sprintf("the process executing the program died (%s): %s", cls, strings.Split(tail.String(), "\n")[0]), gi, ci, replayOf(l, name, code, c)})
+				ws.crashes++
+				tooMany := ws.crashes >= 40
+				if tooMany {
+					gaveUp = true
+				}
+				mu.Unlock()
+				if tooMany {
+					return
+				}
+				// continue behind the crashing program (its remaining configurations are skipped; the crash is reported)
+				ws.start = gi + 1
+				ws.done = nil
+			}
+		}(states[s])
+	}
+	wg.Wait()
+
+	// ---- merge ----
+	type v struct {
+		key, what string
+		prog, cfg int
+		replay    map[string]interface{}
+	}
+	var all []v
+	total := map[string]int{}
+	for _, c := range crashes {
+		all = append(all, v{c.key, c.what, c.prog, c.cfg, c.replay})
+		total[c.key]++
+	}
+	merged := map[string]*layerStats{}
+	var order []string
+	sigs := map[string]bool{}
+	for _, ws := range states {
+		for _, m := range ws.viols {
+			all = append(all, v{m.Key, m.What, m.Prog, m.Cfg, m.Replay})
+		}
+		if ws.done == nil {
+			continue
+		}
+		for k, n := range ws.done.Counts {
+			total[k] += n
+		}
+		for _, s := range ws.done.Sigs {
+			sigs[s] = true
+		}
+		if ws.done.Capped != "" {
+			r.Capped(fmt.Sprintf("worker %d/%d: %s", ws.shard, nw, ws.done.Capped))
+		}
+		for _, ls := range ws.done.Stats {
+			m, ok := merged[ls.Name]
+			if !ok {
+				m = &layerStats{Name: ls.Name, What: ls.What, Outcomes: map[string]int{}, Complete: true, Total: ls.Total}
+				merged[ls.Name] = m
+				order = append(order, ls.Name)
+			}
+			m.Programs += ls.Programs
+			m.Cases += ls.Cases
+			m.Runs += ls.Runs
+			m.Steps += ls.Steps
+			m.Frames += ls.Frames
+			m.Reverts += ls.Reverts
+			if ls.MaxDepth > m.MaxDepth {
+				m.MaxDepth = ls.MaxDepth
+			}
+			for k, n := range ls.Outcomes {
+				m.Outcomes[k] += n
+			}
+			if !ls.Complete {
+				m.Complete = false
+			}
+		}
+	}
+	if gaveUp {
+		r.Capped("a worker crashed 40 times and was not restarted again; its shard is incomplete")
+	}
+	sort.SliceStable(all, func(i, j int) bool {
+		if all[i].prog != all[j].prog {
+			return all[i].prog < all[j].prog
+		}
+		return all[i].cfg < all[j].cfg
+	})
+	for _, x := range all {
+		r.Violation(x.key, x.what, x.replay)
+	}
+	var per []interface{}
+	programs, cases, runs, frames, reverts, maxDepth := 0, 0, 0, 0, 0, 0
+	var steps uint64
+	outcomes := map[string]int{}
+	for _, n := range order {
+		m := merged[n]
+		if m.Programs < m.Total {
+			m.Complete = false
+		}
+		per = append(per, m)
+		programs += m.Programs
+		cases += m.Cases
+		runs += m.Runs
+		steps += m.Steps
+		frames += m.Frames
+		reverts += m.Reverts
+		if m.MaxDepth > maxDepth {
+			maxDepth = m.MaxDepth
+		}
+		for k, c := range m.Outcomes {
+			outcomes[k] += c
+		}
+	}
+	nontrivial := 0
+	for s := range sigs {
+		if !strings.HasPrefix(s, "stack underflow|") && !strings.HasPrefix(s, "invalid opcode|") {
+			nontrivial++
+		}
+	}
+	r.Set("layers", per)
+	r.Set("states", programs)
+	r.Set("transitions", cases)
+	r.Set("traces_validated_against_impl", runs)
+	r.Set("evaluations", cases)
+	r.Set("programs", programs)
+	r.Set("cases_program_x_configuration", cases)
+	r.Set("interpreter_steps_observed", steps)
+	r.Set("call_frames_observed", frames)
+	r.Set("frame_reverts_checked", reverts)
+	r.Set("max_call_depth_reached", maxDepth)
+	r.Set("outcome_classes", outcomes)
+	r.Set("distinct_nontrivial", nontrivial)
+	r.Set("distinct_behaviour_signatures", len(sigs))
+	r.Set("violation_cases", total)
+	r.Set("workers", nw)
+	r.Set("rule", "every program of every layer x every configuration of that layer is executed on the real EVM twice from equal pre-states (observed run with probing StateDB + tracer, plain run); "+
+		"oracles: no panic / no process death; interpreter steps <= gas + gas/256 + 2000; gas left (+ fee refund the application adds) <= gas supplied; both runs identical in return data, gas, error, fee refunds, balance records, "+
+		"explicit world delta and state root; a failing outermost frame leaves an empty delta and the pre-state root; every nested frame that fails is reverted and the world after RevertToSnapshot equals the world at its Snapshot; "+
+		"non-trivial = behaviour signatures (error class, changed field classes, frames, return size, reverts, balance records) other than an immediate stack underflow / invalid opcode")
+	r.Assume("world = 20 fixed accounts (caller, program account, 10 fixture contracts, precompiles 1-4, small addresses 0x00/0x01/0x20/0xff, one token id); block context fixed (number 10, time 1000); gas price 1")
+	r.Assume("the explicit world dump is the set of state objects the StateDB holds in memory (add-only hook state.VerifLoaded) compared field by field with an untouched twin; objects not in memory equal the committed pre-state by construction of StateDB; the state root is compared in addition")
+	r.Assume("IntermediateRoot(false) as the application calls it; database = state.NewDatabase over the copying MemDB")
+	r.Assume("the observed run uses evm.Config{Debug:true, Tracer}; it is compared against the plain run of the same case, so the tracer path is not trusted")
+	r.Assume("wall-clock is used only as a 20 s safety net per case; the termination oracle is the deterministic step budget")
+	r.Assume("WASM contracts, the app-level state transition around the EVM (buyGas, refundGas, nonce), precompile internals and tracing APIs are outside this check")
+	r.Finish()
+}
+
+// ---- replay ----
+
+func replayMain(r *vk.Run) {
+	var rp struct {
+		Program string `json:"program"`
+		Code    string `json:"code"`
+		Entry   string `json:"entry"`
+		Gas     uint64 `json:"gas"`
+		Value   int64  `json:"value"`
+		Input   string `json:"input"`
+	}
+	r.LoadReplay(&rp)
+	code, _ := hex.DecodeString(rp.Code)
+	in, _ := hex.DecodeString(rp.Input)
+	c := config{gas: rp.Gas, value: rp.Value, input: in}
+	for i, n := range entryName {
+		if n == rp.Entry {
+			c.entry = entryKind(i)
+		}
+	}
+	lim := uint64(6 << 30)
+	syscall.Setrlimit(syscall.RLIMIT_AS, &syscall.Rlimit{Cur: lim, Max: lim})
 	startWatchdog()
 	w := buildWorld()
-	fmt.Printf("world root %x\n", w.root)
-	progs := [][]byte{
-		cat(push1(1), push1(0), op(evm.SSTORE)),
-		cat(push1(1), op(evm.ADD)),
-		cat(push1(5), op(evm.ISSUE)),
-		callMacro(evm.CALL, &aReverter, 1, gasAll),
-		callMacro(evm.CALL, &aTokUser, 0, gasAll),
-		callMacro(evm.CALL, &aIssuer, 0, gasAll),
-		callMacro(evm.DELEGATECALL, &aIssueLib, 0, gasAll),
-		cat(op(evm.JUMPDEST), push1(0), op(evm.JUMP)),
-		callMacro(evm.CALL, nil, 0, gasAll),
+	ref, preRoot := w.pristine, w.root
+	if c.entry != entCreate {
+		ref = w.open(code)
+		preRoot = w.open(code).IntermediateRoot(false)
 	}
-	for _, p := range progs {
-		for _, c := range []config{{entCall, 10000000, 1, nil}, {entCreate, 10000000, 1, nil}, {entUTXOCall, 50000, 0, nil}, {entTokenCall, 10000000, 1, nil}} {
-			t0 := time.Now()
-			ref := w.pristine
-			if c.entry != entCreate {
-				ref = w.open(p)
-			}
-			fs, cls, a := evaluate(w, ref, p, c)
-			fmt.Printf("%x %v -> %s steps=%d frames=%d depth=%d left=%d (%v)\n", p, c, cls, a.steps, a.frames, a.maxDepth, a.left, time.Since(t0))
-			for _, f := range fs {
-				fmt.Printf("   FINDING %s :: %s\n", f.key, f.what)
-			}
-		}
+	fmt.Printf("replay: %s  [%s]  code=%s\n", rp.Program, c, rp.Code)
+	fs, cls, a, _ := evaluate(w, ref, preRoot, code, c)
+	fmt.Printf("outcome=%s err=%q left=%d ret=%x steps=%d frames=%d depth=%d\n", cls, a.err, a.left, a.ret, a.steps, a.frames, a.maxDepth)
+	if a.post != nil {
+		fmt.Printf("world delta: %s\n", a.post)
 	}
-	if len(os.Args) > 1 {
-		fh, _ := os.Create("/tmp/C20-dev/cpu.prof")
-		pprof.StartCPUProfile(fh)
-		defer pprof.StopCPUProfile()
-		// throughput
-		p := cat(push1(1), push1(0), op(evm.SSTORE))
-		c := config{entCall, 50000, 0, nil}
-		t0 := time.Now()
-		n := 20000
-		ref := w.open(p)
-		for i := 0; i < n; i++ {
-			evaluate(w, ref, p, c)
-		}
-		fmt.Printf("evaluate: %v per case\n", time.Since(t0)/time.Duration(n))
-		t0 = time.Now()
-		for i := 0; i < n; i++ {
-			run(w, ref, p, c, false)
-		}
-		fmt.Printf("plain run: %v per case\n", time.Since(t0)/time.Duration(n))
-		p = cat(push1(1), op(evm.ADD))
-		ref = w.open(p)
-		t0 = time.Now()
-		for i := 0; i < n; i++ {
-			run(w, ref, p, c, false)
-		}
-		fmt.Printf("plain run (underflow): %v per case\n", time.Since(t0)/time.Duration(n))
+	for _, f := range fs {
+		r.Violation(f.key, f.what, map[string]interface{}{"program": rp.Program, "code": rp.Code, "entry": rp.Entry, "gas": rp.Gas, "value": rp.Value, "input": rp.Input})
 	}
+	r.Set("states", 1)
+	r.Set("transitions", 1)
+	r.Set("traces_validated_against_impl", 2)
+	r.Finish()
 }
